@@ -1,0 +1,52 @@
+//go:build verif
+// +build verif
+
+// Machine-checked contracts for this package (checked by /verif/govc).
+// Comment-only: no executable code.
+
+package hooks
+
+//@ import dtypes "github.com/ovrclk/akash/x/deployment/types"
+//@ import mtypes "github.com/ovrclk/akash/x/market/types"
+//@ import etypes "github.com/ovrclk/akash/x/escrow/types"
+//@ import dkeeper "github.com/ovrclk/akash/x/deployment/keeper"
+//@ import mkeeper "github.com/ovrclk/akash/x/market/keeper"
+//@ import hooks "github.com/ovrclk/akash/x/market/hooks"
+
+// A-WIRING: the hooks are built over these keeper implementations (app/app.go)
+//@ bind hooks.DeploymentKeeper => dkeeper.Keeper
+//@ bind hooks.MarketKeeper => mkeeper.Keeper
+
+//@ spec hdsk(h: *hooks): iface = unbox(h.dkeeper, dkeeper.Keeper).skey
+//@ spec hmsk(h: *hooks): iface = unbox(h.mkeeper, mkeeper.Keeper).skey
+//@ spec hwired(h: *hooks): bool = h != nil && typeis(h.dkeeper, dkeeper.Keeper) && typeis(h.mkeeper, mkeeper.Keeper)
+//@     && hmsk(h) != mktEscrowSKey() && hdsk(h) != mktEscrowSKey() && hmsk(h) != hdsk(h)
+
+// When a deployment's escrow account closes (or is overdrawn) the deployment is closed and every group of it that
+// can still be closed is closed (out of funds: marked so) together with everything beneath it; the walk over the
+// groups skips closed groups but never stops early.  Nothing is re-opened (A-HOOKS is discharged here).
+//@ func (*hooks).OnEscrowAccountClosed
+//@   requires hwired(h) && depWF(KVhas[hdsk(h)], KVval[hdsk(h)])
+//@   modifies ghost KVhas, ghost KVval, ghost G, ghost Bank, ghost Mod, ghost It_all, ghost EvN, ghost EvLog, ghost PayCloseReq
+//@   uses keepsClosedTrans, keepsClosedRefl, depKeepsTrans, depKeepsRefl, depKeepsHas, depKeepsWF, depKeepsClosedDep, depKeepsDead, depKeepsCloseGroup, depKeepsCloseDeployment, depWFGet, depWFEnumGroup, dkindsDisjoint
+//@   ensures [deployment] forall d: dtypes.DeploymentID :: obj.ID.Scope == "deployment" && obj.ID.XID == depXID(d) && canonicalAddr(d.Owner)
+//@        && old(KVhas)[hdsk(h)][deploymentKeyOf(d)] && depOf(old(KVval)[hdsk(h)], d).State == dtypes.DeploymentActive ==>
+//@        depOf(KVval[hdsk(h)], d).State == dtypes.DeploymentClosed
+//@   ensures [groups] forall d: dtypes.DeploymentID, j: int :: obj.ID.Scope == "deployment" && obj.ID.XID == depXID(d) && canonicalAddr(d.Owner)
+//@        && old(KVhas)[hdsk(h)][deploymentKeyOf(d)] && depOf(old(KVval)[hdsk(h)], d).State == dtypes.DeploymentActive
+//@        && 0 <= j && j < enumLen(old(KVhas)[hdsk(h)], groupsKeyOf(depOf(old(KVval)[hdsk(h)], d).DeploymentID)) ==>
+//@        groupDead(decode(dtypes.Group, KVval[hdsk(h)][enumKey(old(KVhas)[hdsk(h)], groupsKeyOf(depOf(old(KVval)[hdsk(h)], d).DeploymentID), j)]).State)
+//@   ensures [mkeeps] keepsClosed(old(KVhas)[hmsk(h)], old(KVval)[hmsk(h)], KVhas[hmsk(h)], KVval[hmsk(h)])
+//@   ensures [dkeeps] depKeeps(old(KVhas)[hdsk(h)], old(KVval)[hdsk(h)], KVhas[hdsk(h)], KVval[hdsk(h)])
+//@   ensures [events] EvN >= old(EvN) && (forall j: int :: 0 <= j && j < old(EvN) ==> EvLog[j] == old(EvLog)[j])
+//@   loop 1 invariant 0 <= iter && iter <= len(ranged)
+//@   loop 1 invariant keepsClosed(old(KVhas)[hmsk(h)], old(KVval)[hmsk(h)], KVhas[hmsk(h)], KVval[hmsk(h)])
+//@   loop 1 invariant depKeeps(atloop(KVhas)[hdsk(h)], atloop(KVval)[hdsk(h)], KVhas[hdsk(h)], KVval[hdsk(h)])
+//@   loop 1 invariant EvN >= old(EvN) && (forall j: int :: 0 <= j && j < old(EvN) ==> EvLog[j] == old(EvLog)[j])
+//@   loop 1 invariant forall j: int :: 0 <= j && j < iter ==> groupDead(grpOf(KVval[hdsk(h)], ranged[j].GroupID).State)
+//@   oncall hooks.(DeploymentKeeper).OnCloseGroup 1 assert callresult == nil && (forall j: int :: 0 <= j && j < iter ==> groupDead(grpOf(KVval[hdsk(h)], ranged[j].GroupID).State))
+//@   oncall hooks.(DeploymentKeeper).OnCloseGroup 1 assert depKeeps(atloop(KVhas)[hdsk(h)], atloop(KVval)[hdsk(h)], KVhas[hdsk(h)], KVval[hdsk(h)])
+//@   oncall hooks.(MarketKeeper).OnGroupClosed 1 assert depKeeps(atloop(KVhas)[hdsk(h)], atloop(KVval)[hdsk(h)], KVhas[hdsk(h)], KVval[hdsk(h)])
+//@   oncall hooks.(MarketKeeper).OnGroupClosed 1 assert forall j: int :: 0 <= j && j < iter ==> groupDead(grpOf(KVval[hdsk(h)], ranged[j].GroupID).State)
+
+//@ property C04 := (*hooks).OnEscrowAccountClosed#*
